@@ -3,6 +3,7 @@ package checks
 import (
 	"encoding/json"
 	"fmt"
+	"reflect"
 	"sort"
 	"strings"
 
@@ -53,7 +54,8 @@ func init() {
 // maps that still sit behind its length (scopes dropped by Reset/Pop): an implementation that reuses
 // them would otherwise look correct only because the clone threw them away.
 func c09Clone(c *cache.Cache) *cache.Cache {
-	n := &cache.Cache{CacheSize: c.CacheSize, CacheUseSize: c.CacheUseSize, LastValue: c.LastValue}
+	n := new(cache.Cache)
+	*n = *c // every scalar field, whatever the tree declares; maps and slices are deep-copied below
 	full := c.Cache[:cap(c.Cache)]
 	nf := make([]map[string]string, len(full))
 	for i, m := range full {
@@ -104,6 +106,19 @@ func c09Key(c *cache.Cache) string {
 	sb.WriteString("|")
 	for _, k := range ks {
 		fmt.Fprintf(&sb, "%s:%d,", k, c.Sizes[k])
+	}
+	// any further exported scalar field of the tree under test is part of the state
+	rv := reflect.ValueOf(c).Elem()
+	for i := 0; i < rv.NumField(); i++ {
+		f := rv.Type().Field(i)
+		if !f.IsExported() || f.Name == "CacheSize" || f.Name == "CacheUseSize" || f.Name == "LastValue" {
+			continue
+		}
+		switch f.Type.Kind() {
+		case reflect.Map, reflect.Slice, reflect.Ptr, reflect.Interface, reflect.Func, reflect.Chan, reflect.Struct, reflect.Array:
+		default:
+			fmt.Fprintf(&sb, "|%s=%v", f.Name, rv.Field(i).Interface())
+		}
 	}
 	// Dropped scopes that still sit behind the slice's length are NOT part of the key (including them
 	// multiplies the graph by 20 and no longer reaches a fixpoint), but c09Clone preserves them, so the
